@@ -483,7 +483,13 @@ func (e *Enc) ptrTerm(p *PtrV) T {
 			t, _ := e.structAddr(a)
 			return t
 		}
-		return T{"(" + e.fldFun(a.S, a.Idx) + " " + a.Base.S + ")", SInt}
+		t := T{"(" + e.fldFun(a.S, a.Idx) + " " + a.Base.S + ")", SInt}
+		if k := "fldnz:" + t.S; !e.rangeSeen[k] && !strings.Contains(t.S, "bv!") && !strings.Contains(t.S, "|qh|") {
+			// the address of a field of a non-nil object is non-nil
+			e.rangeSeen[k] = true
+			e.s.Assume(Imp(Not(Eq(a.Base, IntLit(0))), Not(Eq(t, IntLit(0)))))
+		}
+		return t
 	case ACell:
 		e.escape(a.Cell, "address of local used as a value")
 		t := a.Cell.RefTerm
